@@ -1,7 +1,8 @@
 /-
 C16 driver: runs the tokenizer model on one case.
 
-plain case : {"bytes": "<hex>"}                      -> {"m": OBS}
+plain case : {"bytes": "<hex>" [, "ctx": "<ASCII context tag>"] [, "cdata": bool]}   -> {"m": OBS}
+             (ctx: Tokenizer::new_fragment, lower-cased here; cdata: allow_cdata)
 block case : {"exh": true, "pre": "<hex>", "alpha": "<hex>", "len": L, "lo": a, "n": c [, "expand": true]}
              = the strings  pre ++ w  for the a-th .. (a+c-1)-th word w of length L over alpha
              (base-|alpha| digits, most significant first)
@@ -66,7 +67,7 @@ def flagged (t : Tokenizer) : Option String :=
   if t.panic then some "panic" else if t.hang then some "hang" else if t.utf8Err then some "utf8Err" else none
 
 /-- OBS of one input, and its number of tokens -/
-def observe (bytes : Array Nat) : Json × Nat :=
+def observeFrom (t0 : Tokenizer) : Json × Nat :=
   let rec go (fuel : Nat) (t : Tokenizer) (acc : Array Json) : Json × Nat :=
     match fuel with
     | 0 => (Json.mkObj [("panic", "model: token loop did not stop")], acc.size)
@@ -83,7 +84,9 @@ def observe (bytes : Array Nat) : Json × Nat :=
           if t1.token == .error then
             (Json.arr #[Json.arr acc, toJson (t2.buf.size - t2.rawE)], acc.size)
           else go fuel t2 acc
-  go (bytes.size + 3) (Tokenizer.new bytes) #[]
+  go (t0.buf.size + 3) t0 #[]
+
+def observe (bytes : Array Nat) : Json × Nat := observeFrom (Tokenizer.new bytes)
 
 def fnvStr (h : UInt64) (s : String) : UInt64 :=
   s.toUTF8.foldl (fun h b => (h ^^^ b.toUInt64) * 1099511628211) h
@@ -128,6 +131,11 @@ def handle (j : Json) : Except String Json := do
       return Json.mkObj [("m", Json.mkObj [("n", toJson n), ("tok", toJson tok), ("h", Json.str (hex64 h))])]
   | _ =>
     let bytes ← Drv.unhex (← Drv.str? j "bytes")
-    return Json.mkObj [("m", (observe bytes.toArray).1)]
+    let ctx ← Drv.optStr? j "ctx"
+    let cdata := (← Drv.optBool? j "cdata").getD true
+    let t0 := match ctx with
+      | some c => Tokenizer.newFragment bytes.toArray (c.toList.map fun (ch : Char) => lowerByte ch.toNat)
+      | none => Tokenizer.new bytes.toArray
+    return Json.mkObj [("m", (observeFrom (t0.setAllowCdata cdata)).1)]
 
 def main : IO Unit := Drv.run handle
